@@ -6,7 +6,9 @@
    by the failing-input search of ./check C01. *)
 From Coq Require Import QArith ZArith List Arith Bool.
 From BV Require Import Quad.Rules Quad.DuffyExact Grid.Topology Grid.PairFacts Grid.AdjacencyFacts
-  Grid.SingularOffsets Grid.SingularOffsetsFacts Grid.C01Lemmas Grid.Examples.
+  Grid.SingularOffsets Grid.SingularOffsetsFacts Grid.C01Lemmas Grid.Examples Grid.Geometry Grid.Refine
+  Grid.PairCoverage Grid.PairCoverageFacts Grid.PairPointsFacts.
+From Coq Require Import Permutation.
 Import ListNotations.
 Close Scope Q_scope.
 Open Scope nat_scope.
@@ -101,9 +103,9 @@ Theorem C01_pair_arrays_edge : forall (order : Z) ts rs ea va k,
   match nth k (filter_edge ts rs ea) (0, 0, 0, 0, 0, 0) with
   | (e, f, i0, i1, j0, j1) =>
     nth (co + k) (s_test_indices A) 0 = e /\ nth (co + k) (s_trial_indices A) 0 = f /\
-    nth (co + k) (s_test_offsets A) 0%Z = edge_offset order i0 i1 /\
-    nth (co + k) (s_trial_offsets A) 0%Z = edge_offset order j0 j1 /\
-    nth (co + k) (s_weights_offsets A) 0%Z = npts order 0 /\ nth (co + k) (s_nquad A) 0%Z = npts order 1
+    nth (co + k) (s_test_offsets A) 0%Z = u32 (edge_offset order i0 i1) /\
+    nth (co + k) (s_trial_offsets A) 0%Z = u32 (edge_offset order j0 j1) /\
+    nth (co + k) (s_weights_offsets A) 0%Z = u32 (npts order 0) /\ nth (co + k) (s_nquad A) 0%Z = u32 (npts order 1)
   end.
 Proof. exact vectorize_edge_entry. Qed.
 Print Assumptions C01_pair_arrays_edge.
@@ -115,10 +117,10 @@ Theorem C01_pair_arrays_vertex : forall (order : Z) ts rs ea va k,
   match nth k (filter_vertex ts rs va) (0, 0, 0, 0) with
   | (e, f, i, j) =>
     nth (co + k) (s_test_indices A) 0 = e /\ nth (co + k) (s_trial_indices A) 0 = f /\
-    nth (co + k) (s_test_offsets A) 0%Z = vertex_offset order i /\
-    nth (co + k) (s_trial_offsets A) 0%Z = vertex_offset order j /\
-    nth (co + k) (s_weights_offsets A) 0%Z = (npts order 0 + npts order 1)%Z /\
-    nth (co + k) (s_nquad A) 0%Z = npts order 2
+    nth (co + k) (s_test_offsets A) 0%Z = vertex_offset_u32 order i /\
+    nth (co + k) (s_trial_offsets A) 0%Z = vertex_offset_u32 order j /\
+    nth (co + k) (s_weights_offsets A) 0%Z = u32 (npts order 0 + npts order 1) /\
+    nth (co + k) (s_nquad A) 0%Z = u32 (npts order 2)
   end.
 Proof. exact vectorize_vertex_entry. Qed.
 Print Assumptions C01_pair_arrays_vertex.
@@ -134,6 +136,112 @@ Theorem C01_support_filter : forall ts rs (ea : list erow) (va : list vrow),
   NoDup (coincident_indices ts rs).
 Proof. exact support_filter. Qed.
 Print Assumptions C01_support_filter.
+
+(* ---- every ordered pair of the supports is integrated exactly once ------------------------------------------
+   reg  = pairs visited by the regular kernel: one call per test colour, that colour's test elements x all trial
+          elements of the support, pairs with elements_adjacent skipped;
+   sing = (test_indices[k], trial_indices[k]) of get_arrays(): coincident, edge-adjacent, vertex-adjacent pairs
+          filtered by the supports.
+   For every triangulation, every pair of supports and every colouring whose coloured elements are the support:
+   reg ++ sing has no repetition and is a permutation of all ordered pairs (test support) x (trial support). *)
+Theorem C01_pair_coverage : forall (els : list elem) (ts rs : list bool) (cm_test cm_trial : list (option nat)),
+  wf_grid els = true -> length ts = length els -> length rs = length els ->
+  colours_match cm_test ts = true -> colours_match cm_trial rs = true ->
+  forall (ea : list erow) (va : list vrow), edge_adjacency els = Some ea -> vertex_adjacency els = Some va ->
+  let reg := regular_pairs els cm_test cm_trial in let sing := singular_pairs ts rs ea va in
+  let target := filter (in_supports ts rs) (all_pairs (length els)) in
+  NoDup (reg ++ sing) /\ (forall p, In p (reg ++ sing) <-> In p target) /\ Permutation (reg ++ sing) target.
+Proof. exact pair_coverage. Qed.
+Print Assumptions C01_pair_coverage.
+
+(* get_elements_by_color lists every coloured element exactly once *)
+Theorem C01_sorted_indices : forall (cm : list (option nat)),
+  NoDup (sorted_indices cm) /\
+  forall e, In e (sorted_indices cm) <-> e < length cm /\ nth e cm None <> None.
+Proof. exact (fun cm => conj (sorted_indices_NoDup cm) (sorted_indices_in cm)). Qed.
+Print Assumptions C01_sorted_indices.
+
+(* ---- the points of a singular pair: canonical configuration, independent of local numbering --------------------
+   XP e k = coordinates of vertex number elements[k,e]; phys = local2global; canon A B C p = A + p1 (B-A) + p2 (C-A) *)
+Theorem C01_edge_pair_points : forall (els : list elem) (vs : list vec),
+  elems_distinct_vertices els = true -> forall tbl e f i0 i1 j0 j1 (p : Q * Q),
+  edge_adjacency els = Some tbl -> In (e, f, i0, i1, j0, j1) tbl ->
+  let A := XP els vs e i0 in let B := XP els vs e i1 in
+  A = XP els vs f j0 /\ B = XP els vs f j1 /\
+  veq (phys (XP els vs e 0) (XP els vs e 1) (XP els vs e 2) (remap_edge i0 i1 p))
+      (canon A B (XP els vs e (3 - i0 - i1)) p) /\
+  veq (phys (XP els vs f 0) (XP els vs f 1) (XP els vs f 2) (remap_edge j0 j1 p))
+      (canon A B (XP els vs f (3 - j0 - j1)) p).
+Proof. exact edge_pair_points. Qed.
+Print Assumptions C01_edge_pair_points.
+
+Theorem C01_vertex_pair_points : forall (els : list elem) (vs : list vec),
+  elems_distinct_vertices els = true -> forall tbl e f i j (p : Q * Q),
+  vertex_adjacency els = Some tbl -> In (e, f, i, j) tbl ->
+  let A := XP els vs e i in
+  A = XP els vs f j /\
+  veq (phys (XP els vs e 0) (XP els vs e 1) (XP els vs e 2) (remap_vertex i p))
+      (canon A (XP els vs e (vperm i 1)) (XP els vs e (vperm i 2)) p) /\
+  veq (phys (XP els vs f 0) (XP els vs f 1) (XP els vs f 2) (remap_vertex j p))
+      (canon A (XP els vs f (vperm j 1)) (XP els vs f (vperm j 2)) p).
+Proof. exact vertex_pair_points. Qed.
+Print Assumptions C01_vertex_pair_points.
+
+(* the offsets stored (in uint32 arrays) for the k-th edge-/vertex-adjacent pair select, in the concatenated test and
+   trial point arrays, exactly the blocks remapped with that pair's own local indices -- for every order 1..30 *)
+Theorem C01_edge_pair_blocks : forall (els : list elem) order ts rs ea va rc re rv k,
+  elems_distinct_vertices els = true -> edge_adjacency els = Some ea ->
+  (1 <= order <= 30)%Z -> duffy order 0 = Some rc -> duffy order 1 = Some re -> duffy order 2 = Some rv ->
+  k < length (filter_edge ts rs ea) ->
+  let A := vectorize order ts rs ea va in
+  let pos := length (coincident_indices ts rs) + k in
+  let TP := vectorize_points (map test_pt rc) (map test_pt re) (map test_pt rv) in
+  let RP := vectorize_points (map trial_pt rc) (map trial_pt re) (map trial_pt rv) in
+  match nth k (filter_edge ts rs ea) (0, 0, 0, 0, 0, 0) with
+  | (e, f, i0, i1, j0, j1) =>
+    nth pos (s_test_indices A) 0 = e /\ nth pos (s_trial_indices A) 0 = f /\
+    slice (Z.to_nat (nth pos (s_test_offsets A) 0%Z)) (Z.to_nat (nth pos (s_nquad A) 0%Z)) TP
+      = map (remap_edge i0 i1) (map test_pt re) /\
+    slice (Z.to_nat (nth pos (s_trial_offsets A) 0%Z)) (Z.to_nat (nth pos (s_nquad A) 0%Z)) RP
+      = map (remap_edge j0 j1) (map trial_pt re)
+  end.
+Proof. exact edge_pair_blocks. Qed.
+Print Assumptions C01_edge_pair_blocks.
+
+Theorem C01_vertex_pair_blocks : forall (els : list elem) order ts rs ea va rc re rv k,
+  elems_distinct_vertices els = true -> vertex_adjacency els = Some va ->
+  (1 <= order <= 30)%Z -> duffy order 0 = Some rc -> duffy order 1 = Some re -> duffy order 2 = Some rv ->
+  k < length (filter_vertex ts rs va) ->
+  let A := vectorize order ts rs ea va in
+  let pos := length (coincident_indices ts rs) + length (filter_edge ts rs ea) + k in
+  let TP := vectorize_points (map test_pt rc) (map test_pt re) (map test_pt rv) in
+  let RP := vectorize_points (map trial_pt rc) (map trial_pt re) (map trial_pt rv) in
+  match nth k (filter_vertex ts rs va) (0, 0, 0, 0) with
+  | (e, f, i, j) =>
+    nth pos (s_test_indices A) 0 = e /\ nth pos (s_trial_indices A) 0 = f /\
+    slice (Z.to_nat (nth pos (s_test_offsets A) 0%Z)) (Z.to_nat (nth pos (s_nquad A) 0%Z)) TP
+      = map (remap_vertex i) (map test_pt rv) /\
+    slice (Z.to_nat (nth pos (s_trial_offsets A) 0%Z)) (Z.to_nat (nth pos (s_nquad A) 0%Z)) RP
+      = map (remap_vertex j) (map trial_pt rv)
+  end.
+Proof. exact vertex_pair_blocks. Qed.
+Print Assumptions C01_vertex_pair_blocks.
+
+(* the offset arithmetic in the dtype of the code (uint32): the reductions mod 2^32 are the identity for every
+   accepted order; with a 16-bit table they would not be (order 7) *)
+Theorem C01_offsets_fit_uint32 : forall order : Z, (1 <= order <= 30)%Z ->
+  (forall i j, i < 3 -> j < 3 -> i <> j -> u32 (edge_offset order i j) = edge_offset order i j) /\
+  (forall k, k < 3 -> vertex_offset_u32 order k = vertex_offset order k) /\
+  u32 (npts order 0) = npts order 0 /\ u32 (npts order 1) = npts order 1 /\ u32 (npts order 2) = npts order 2 /\
+  u32 (npts order 0 + npts order 1) = (npts order 0 + npts order 1)%Z.
+Proof. exact offsets_fit_u32. Qed.
+Print Assumptions C01_offsets_fit_uint32.
+
+Theorem C01_offsets_do_not_fit_uint16 :
+  exists order i j, (1 <= order <= 30)%Z /\ i < 3 /\ j < 3 /\ i <> j /\
+    (edge_offset order i j mod 2 ^ 16 <> edge_offset order i j)%Z.
+Proof. exact offsets_do_not_fit_u16. Qed.
+Print Assumptions C01_offsets_do_not_fit_uint16.
 
 (* hypotheses satisfiable: the octahedron *)
 Theorem C01_example : wf_grid octahedron = true /\ in_range octahedron 6 = true.
